@@ -111,6 +111,7 @@ func init() {
 			{Func: gp + "internal/zzverif.VC05Resb", Discover: 2, Reach: []string{"c05r.accepted"}},
 			{Func: gp + "internal/zzverif.VC05Align", Discover: 1, Reach: []string{"c05a.accepted"}},
 			{Func: gp + "internal/zzverif.VC05Silent", Discover: 1, Reach: []string{"c05e.accepted"}},
+			{Func: gp + "internal/zzverif.VC05Label", Discover: 2, Digits: 8, Reach: []string{"c05l.accepted"}},
 		}
 	}
 	properties["C05"] = &propSpec{ID: "C05", Quick: tierSpec{Harnesses: hs(0)}, Thorough: tierSpec{Harnesses: hs(1)}}
@@ -148,10 +149,12 @@ func init() {
 		Quick: tierSpec{Harnesses: []harnessSpec{
 			{Func: gp + "internal/zzverif.VC07Invalid", Discover: 1, Reach: []string{"c07i.ran"}},
 			{Func: gp + "internal/zzverif.VC07All", Discover: 1, Reach: []string{"c07a.diagnosed"}},
+			{Func: gp + "internal/zzverif.VC07Range", Discover: 2, Digits: 5, Reach: []string{"c07r.ran"}},
 		}},
 		Thorough: tierSpec{Harnesses: []harnessSpec{
 			{Func: gp + "internal/zzverif.VC07Invalid", Discover: 1, Reach: []string{"c07i.ran"}},
 			{Func: gp + "internal/zzverif.VC07All", Discover: 1, Reach: []string{"c07a.diagnosed"}},
+			{Func: gp + "internal/zzverif.VC07Range", Discover: 2, Digits: 5, Reach: []string{"c07r.ran"}},
 		}},
 	}
 }
@@ -182,15 +185,21 @@ func init() {
 
 func init() {
 	properties["C16"] = &propSpec{ID: "C16",
-		Quick:    tierSpec{Harnesses: []harnessSpec{{Func: gp + "internal/zzverif.VC16", Discover: 2, Digits: 5, Reach: []string{"c16.accepted"}}}},
-		Thorough: tierSpec{Harnesses: []harnessSpec{{Func: gp + "internal/zzverif.VC16", Discover: 2, Digits: 5, Reach: []string{"c16.accepted"}}}},
+		Quick:    tierSpec{Harnesses: []harnessSpec{{Func: gp + "internal/zzverif.VC16", Discover: 2, Digits: 6, Reach: []string{"c16.accepted"}}}},
+		Thorough: tierSpec{Harnesses: []harnessSpec{{Func: gp + "internal/zzverif.VC16", Discover: 2, Digits: 6, Reach: []string{"c16.accepted"}}}},
 	}
 }
 
 func init() {
 	properties["C17"] = &propSpec{ID: "C17",
-		Quick:    tierSpec{Harnesses: []harnessSpec{{Func: gp + "internal/zzverif.VC17", Discover: 3, Digits: 5, Reach: []string{"c17.accepted"}}}},
-		Thorough: tierSpec{Harnesses: []harnessSpec{{Func: gp + "internal/zzverif.VC17", Discover: 3, Digits: 5, Reach: []string{"c17.accepted"}}}},
+		Quick: tierSpec{Harnesses: []harnessSpec{
+			{Func: gp + "internal/zzverif.VC17", Discover: 3, Digits: 5, Reach: []string{"c17.accepted"}},
+			{Func: gp + "internal/zzverif.VC17Decode", Discover: 3, Reach: []string{"c17d.accepted"}},
+		}},
+		Thorough: tierSpec{Harnesses: []harnessSpec{
+			{Func: gp + "internal/zzverif.VC17", Discover: 3, Digits: 5, Reach: []string{"c17.accepted"}},
+			{Func: gp + "internal/zzverif.VC17Decode", Discover: 3, Params: map[string]int{"alldigits": 1}, Reach: []string{"c17d.accepted"}},
+		}},
 	}
 }
 
